@@ -246,6 +246,39 @@ fn cmp_seek() {
                 _ => {}
             }
         }
+        if v_str("op", "start") == "start" && k >= 2 {
+            // history dependence: consume block 0 to its very last byte (the reader then still holds
+            // the exhausted decompressor of block 0), abandon, and seek into the next block
+            rd.seek(SeekFrom::Start(0)).ok()?;
+            let mut sink = vec![0u8; BLOCK as usize];
+            let mut got = 0usize;
+            while got < sink.len() {
+                match rd.read(&mut sink[got..]) {
+                    Ok(0) => break,
+                    Ok(n) => got += n,
+                    Err(e) => return Some(format!("reading block 0 failed: {e}")),
+                }
+            }
+            let p = (BLOCK + (v_u64("p", 0) % BLOCK).min(total - BLOCK - 1)).min(total - 1);
+            match rd.seek(SeekFrom::Start(p)) {
+                Ok(g) if g == p => {
+                    let mut b = [0u8; 16];
+                    let want = &data[p as usize..(p as usize + 16).min(data.len())];
+                    let mut nb = 0;
+                    while nb < want.len() {
+                        match rd.read(&mut b[nb..want.len()]) {
+                            Ok(0) => break,
+                            Ok(x) => nb += x,
+                            Err(e) => return Some(format!("after reading block 0 to its last byte, seek(Start({p})) then read failed: {e}")),
+                        }
+                    }
+                    if b[..nb] != *want {
+                        return Some(format!("after reading block 0 to its last byte, the bytes at {p} depend on that history"));
+                    }
+                }
+                other => return Some(format!("after reading block 0 to its last byte, seek(Start({p})) gave {other:?}")),
+            }
+        }
         if v_str("op", "start") != "start" {
             // the state a relative seek leaves behind must also carry sequential reading to the very
             // end of the stream (a stale in-block counter shows only at the next block edge).
